@@ -71,11 +71,18 @@ def deliverRelated (rc re : Res) : Bool :=
   | .raised e, .raised e' => e == e'
   | _, _ => false
 
+/-- the library's own exception objects that `deliverRelated` has dedicated clauses for (an operation
+    cannot raise *these objects*; the wire format lets an oracle name them, so the environment says so) -/
+def isLibMadeTerminal : Exn → Bool
+  | .libRuntimeError | .libCircuitOpen _ => true
+  | _ => false
+
 /-- the environments C12 speaks about: no attempt hooks, and callbacks other than the operation do
     not raise AbortRetryError / RetryExhaustedError / CircuitOpenError themselves -/
 def c12Env (cfg : Cfg) (t : List (Req × Ans)) : Bool :=
   cfg.attemptStart.isNone && cfg.attemptEnd.isNone
   && t.all fun x => match x.1, x.2 with
+    | .op _, .raise e _ => !isLibMadeTerminal e
     | .op _, _ => true
     | .abortIf, .raise .. => false      -- a raising predicate is a failed attempt for execute() only (DESIGN §6.2)
     | _, .raise e _ => !(e.isAbort || e.isExhausted || e.isCircuitOpen)
